@@ -22,6 +22,7 @@ from typing import Dict, List, Optional, Set, Tuple
 
 from sa.cfg import CFG, guards
 from sa.model import AnalysisError, Function, Repo, calls_in, const_str, dotted, full, norm, own_nodes, parent
+from sa.match import Locals, match, names_in
 from sa.report import Report
 from sa.templates import HOLE, template_of
 
@@ -123,7 +124,9 @@ def run(repo: Repo, rep: Report, tier: str) -> None:
                               f"the {loc} entry is keyed by `{key_def[:60]}` / valued by `{val_def[:60]}`: the wire name is not the spec's original name or the "
                               "value is not the parameter's own argument", fn.loc(c))
             gs = guards(cfg, nd.id, dom)
-            req = [p for g, p in gs if "required" in norm(g.ast)]
+            # effective polarity of "the parameter is required" (a test written as `not p.get("required")` flips it)
+            req = [(not p if isinstance(g.ast, ast.UnaryOp) and isinstance(g.ast.op, ast.Not) else p) for g, p in gs
+                   if any(const_str(x) == "required" for x in ast.walk(g.ast))]
             conditional = "is not None else" in t.text
             if req and ((req[0] is True and not conditional) or (req[0] is False and conditional)):
                 rep.ok("R4.5", sub + " optionality", "required -> plain entry, optional -> `**({...} if x is not None else {})`", fn.loc(c))
@@ -188,12 +191,25 @@ def run(repo: Repo, rep: Report, tier: str) -> None:
     for nd, c in body_adds:
         lit = const_str(c.args[0]) or ""
         gs = guards(cfg, nd.id, dom)
+        GL = Locals(grc.node)
         gtxt = []
+        other = []
         for g, p in gs:
-            if p is True:
-                conj = g.ast.values if isinstance(g.ast, ast.BoolOp) and isinstance(g.ast.op, ast.And) else [g.ast]
-                gtxt += [norm(cj) for cj in conj]
-        other = [g for g in gtxt if not (g.endswith("request_body") or "primary_content_type" in g)]
+            if g.kind != "test" or p is None:
+                continue
+            conj = g.ast.values if p is True and isinstance(g.ast, ast.BoolOp) and isinstance(g.ast.op, ast.And) else [g.ast]
+            for cj in conj:
+                gtxt.append(("" if p else "not ") + norm(cj))
+                ci = GL.inline(cj, stop=tuple(GL.params))
+                # allowed conditions: "the operation declares a request body" and tests of the content type against media-type literals
+                has_body = isinstance(ci, ast.Attribute) and ci.attr == "request_body"
+                consts = [x.value for x in ast.walk(ci) if isinstance(x, ast.Constant) and isinstance(x.value, str)]
+                media = bool(consts) and all("/" in v for v in consts) and all(GL.is_param(n) for n in names_in(ci))
+                ct_params = {n for x in ast.walk(grc.node) if isinstance(x, ast.Compare) and any(
+                    isinstance(y, ast.Constant) and isinstance(y.value, str) and "/" in y.value for y in ast.walk(x)) for n in names_in(x) if GL.is_param(n)}
+                truthy_ct = isinstance(ci, ast.Name) and ci.id in ct_params
+                if not (has_body or media or truthy_ct):
+                    other.append(("" if p else "not ") + norm(cj))
         sub = f"{rg.relpath}:generate_request_call `{lit}`"
         if other:
             rep.violation("R4.8", sub, f"{grc.fq}|body-extra-guard|{lit}|{other}",
